@@ -103,11 +103,11 @@ func runA(o *vh.Out, q, text string) {
 				case ast.Expr:
 					a, b := int(v.Pos())-base, int(v.End())-base
 					// the parser gets the bytes between `${` and `}`; the AST node is tight:
-					// widen over blanks (generated expressions have no other padding)
-					for a > 0 && a <= len(text) && (text[a-1] == ' ' || text[a-1] == '\t') {
+					// widen over blanks and line ends (generated expressions have no other padding)
+					for a > 0 && a <= len(text) && isBlank(text[a-1]) {
 						a--
 					}
-					for b >= 0 && b < len(text) && (text[b] == ' ' || text[b] == '\t') {
+					for b >= 0 && b < len(text) && isBlank(text[b]) {
 						b++
 					}
 					if _, bad := v.(*ast.BadExpr); bad {
@@ -169,6 +169,8 @@ func runA(o *vh.Out, q, text string) {
 	}
 	o.Case(caseA(q, text), impl, strings.Contains(text, "$"))
 }
+
+func isBlank(c byte) bool { return c == ' ' || c == '\t' || c == '\n' || c == '\r' }
 
 func min2(a, b int) int {
 	if a < b {
@@ -732,9 +734,9 @@ func main() {
 		fail(fmt.Errorf("bad replay line %q", f.Replay))
 	}
 	// A1: exhaustive small scope over {a, $, {, }}
-	L := 6
+	L := 7
 	if f.Tier == "thorough" {
-		L = 8
+		L = 9
 	}
 	alpha := []byte("a${}")
 	var rec func(prefix []byte)
@@ -782,7 +784,7 @@ func main() {
 // regenerates the same list)
 func replayN(f *vh.Flags) int {
 	if f.Tier == "thorough" {
-		return 1500
+		return 3000
 	}
-	return 250
+	return 600
 }
